@@ -2780,10 +2780,10 @@ theorem segDom_weaken (cov ins : Bool) (c : Cls) (hdrPhoff : BitVec 64) (phentsi
 /-- Writer-domain conditions at every turn of pass 2, for *flat* objects: `segDom cov ins`, no
     member is generated before its step (`segFlat`), and a segment with members starts a fresh run
     (`segFreshB`: neither the PHDR nor the offset-0 special case). -/
-def layoutDomB (cov ins : Bool) (o : Obj) (h : Bytes) : Bool :=
+def layoutDomB (cov ins : Bool) (sel : Nat → Bool) (o : Obj) (h : Bytes) : Bool :=
   match layoutOf o h with
   | .ok (some res) =>
-    segsAllB (fun lay g =>
+    segsAllB (fun lay g => !sel g.index ||
         segDom cov ins o.cls (Hdr.e_phoff o.cls o.enc res.hdr0) (Hdr.e_phentsize o.cls o.enc res.hdr0)
           (Hdr.e_phnum o.cls o.enc res.hdr0) lay g &&
         segFlat o.cls (Hdr.e_phoff o.cls o.enc res.hdr0) (Hdr.e_phentsize o.cls o.enc res.hdr0)
@@ -2818,8 +2818,8 @@ theorem final_of_turn (o : Obj) (h : Bytes) (res : LayoutRes) (hl : layoutOf o h
 theorem final_segments (cov ins : Bool) (o : Obj) (h : Bytes) (res : LayoutRes)
     (hl : layoutOf o h = .ok (some res)) (hnw : layoutNW o h = true) (hn : o.secs.length < 65536)
     (h0 : ∀ (i : Nat) (s : SecBuf), o.secs[i]? = some s → s.Occ → s.index ≠ 0)
-    (hnd : (o.segs.map (·.index)).Nodup) (hdom : layoutDomB cov ins o h = true)
-    (g' : Seg) (hg : g' ∈ res.segs) :
+    (hnd : (o.segs.map (·.index)).Nodup) (sel : Nat → Bool) (hdom : layoutDomB cov ins sel o h = true)
+    (g' : Seg) (hg : g' ∈ res.segs) (hsel : sel g'.index = true) :
     g'.filesz.toNat ≤ g'.memsz.toNat ∧
     (g'.secs ≠ [] → g'.align.toNat ≤ 9223372036854775808 →
       g'.offset.toNat % (max g'.align.toNat 1) = g'.vaddr.toNat % (max g'.align.toNat 1)) ∧
@@ -2839,10 +2839,11 @@ theorem final_segments (cov ins : Bool) (o : Obj) (h : Bytes) (res : LayoutRes)
   unfold layoutDomB at hdom
   rw [hl] at hdom
   simp only at hdom
+  obtain ⟨hmarks, hsecs, hidx, -, hty, hal⟩ := layoutSegment_marks _ _ _ _ _ _ _ _ _ f3 f2 f1
   have hturn := segsAllB_trace _ _ _ _ _ _ _ hdom t ht
-  simp only [Bool.and_eq_true, Bool.or_eq_true] at hturn
+  rw [hidx] at hsel
+  simp only [hsel, Bool.not_true, Bool.false_or, Bool.and_eq_true, Bool.or_eq_true] at hturn
   obtain ⟨⟨hsd, hfl⟩, hfe⟩ := hturn
-  obtain ⟨hmarks, hsecs, -, -, hty, hal⟩ := layoutSegment_marks _ _ _ _ _ _ _ _ _ f3 f2 f1
   have dom := layoutSegment_dom cov ins _ _ _ _ t.lay t.lay' t.g t.g' _ f3 f2 hsd f1
   obtain ⟨-, hstepT⟩ := layoutSegment_inv _ _ _ _ t.lay t.lay' t.g t.g' _ f3 f2 f1
   have hfresh : t.g.secs ≠ [] → segFresh t.lay t.g := by
@@ -3010,7 +3011,9 @@ theorem ite_pure_eq' {α : Type} (c : Prop) [Decidable c] (a b r : α)
 /-- the stream operations of a successful `save`: header at the start, then every section
     (header record, then data), then every program header -/
 theorem save_stream (o : Obj) (os : OStream) (r : SaveRes) (h : save o os = .ok r) (hok : r.ok = true) :
-    ∃ hdrF, r.obj.hdr = some hdrF ∧ ((os.seekp (trApply o.trans 0)).write hdrF).fail = false ∧
+    ∃ hdr hdrF, o.hdr = some hdr ∧ r.obj.hdr = some hdrF ∧
+      hdrF = Hdr.set_shoff o.cls o.enc (saveHdr0 (preSave o) hdr) r.obj.curPos.toNat ∧
+      ((os.seekp (trApply o.trans 0)).write hdrF).fail = false ∧
       r.os = r.obj.segs.foldl (saveSegment o.cls o.enc (Hdr.e_phoff o.cls o.enc hdrF) (Hdr.e_phentsize o.cls o.enc hdrF))
         (r.obj.secs.foldl (saveSection o.cls o.enc (Hdr.e_shoff o.cls o.enc hdrF) (Hdr.e_shentsize o.cls o.enc hdrF))
           ((os.seekp (trApply o.trans 0)).write hdrF)) ∧
@@ -3028,7 +3031,9 @@ theorem save_stream (o : Obj) (os : OStream) (r : SaveRes) (h : save o os = .ok 
     · simp only [hf, if_true, pure, Except.pure, Except.ok.injEq] at h
       subst h; exact absurd hok (by simp)
     · simp only [hf, Bool.false_eq_true, if_false] at h
-      generalize allResident o.cls o.trans o.secs { st := o.stream } [] = ar at h
+      refine ⟨hdr, ?_⟩
+      unfold preSave
+      generalize allResident o.cls o.trans o.secs { st := o.stream } [] = ar at h ⊢
       cases hm : o.segs.mapM (calcSegAlign ar.1) with
       | error e => rw [hm] at h; simp [bind, Except.bind] at h
       | ok segs =>
@@ -3051,7 +3056,7 @@ theorem save_stream (o : Obj) (os : OStream) (r : SaveRes) (h : save o os = .ok 
               simp only at h
               rcases ite_pure_eq' _ _ _ _ h with ⟨-, rfl⟩ | ⟨hnf, rfl⟩
               · exact absurd hok (by simp)
-              · refine ⟨_, rfl, by simpa using hnf, rfl, by simpa using hok⟩
+              · refine ⟨_, rfl, rfl, rfl, by simpa using hnf, rfl, by simpa using hok⟩
 
 /-- one `section_impl::save`: nothing before fails, the stream only grows, the section header
     record — and the data, if written — end inside the stream -/
@@ -3199,35 +3204,41 @@ theorem saveHdr0_preSave (o : Obj) (h : Bytes) : saveHdr0 (preSave o) h = saveHd
 /-! ### the section header table offset read back from the saved header -/
 
 theorem setF_length (c : Cls) (enc : Enc) (h : Bytes) (o32 w32 o64 w64 v : Nat)
-    (h32 : o32 + w32 ≤ h.length) (h64 : o64 + w64 ≤ h.length) :
+    (hb : match c with | .c32 => o32 + w32 ≤ h.length | .c64 => o64 + w64 ≤ h.length) :
     (Hdr.setF c enc h o32 w32 o64 w64 v).length = h.length := by
   unfold Hdr.setF
   cases c
-  · simp only; rw [wr_length _ _ _ (by rw [wrField_length_arr]; exact h32)]
-  · simp only; rw [wr_length _ _ _ (by rw [wrField_length_arr]; exact h64)]
+  · simp only at hb ⊢; rw [wr_length _ _ _ (by rw [wrField_length_arr]; exact hb)]
+  · simp only at hb ⊢; rw [wr_length _ _ _ (by rw [wrField_length_arr]; exact hb)]
 
-theorem saveHdr0_length (o : Obj) (h : Bytes) (hl : 64 ≤ h.length) : (saveHdr0 o h).length = h.length := by
+theorem saveHdr0_length (o : Obj) (h : Bytes) (hl : ehdrSize o.cls ≤ h.length) : (saveHdr0 o h).length = h.length := by
   unfold saveHdr0
   simp only
+  have hb : ∀ (x : Bytes), x.length = h.length → ∀ o32 w32 o64 w64, o32 + w32 ≤ 52 → o64 + w64 ≤ 64 →
+      (match o.cls with | .c32 => o32 + w32 ≤ x.length | .c64 => o64 + w64 ≤ x.length) := by
+    intro x hx o32 w32 o64 w64 h1 h2
+    rw [hx]
+    cases hc : o.cls <;> (rw [hc] at hl; simp only [ehdrSize, sizeof_Elf32_Ehdr, sizeof_Elf64_Ehdr] at hl ⊢; omega)
   have l1 : ∀ v, (Hdr.set_phnum o.cls o.enc h v).length = h.length := by
     intro v; unfold Hdr.set_phnum
-    exact setF_length _ _ _ _ _ _ _ _ (by simp only [Elf32_Ehdr.e_phnum_off]; omega) (by simp only [Elf64_Ehdr.e_phnum_off]; omega)
+    exact setF_length _ _ _ _ _ _ _ _ (hb h rfl _ _ _ _ (by decide) (by decide))
   have l2 : ∀ (x : Bytes) v, x.length = h.length → (Hdr.set_phoff o.cls o.enc x v).length = h.length := by
     intro x v hx; unfold Hdr.set_phoff
-    rw [setF_length _ _ _ _ _ _ _ _ (by simp only [Elf32_Ehdr.e_phoff_off]; omega) (by simp only [Elf64_Ehdr.e_phoff_off]; omega)]; exact hx
+    rw [setF_length _ _ _ _ _ _ _ _ (hb x hx _ _ _ _ (by decide) (by decide))]; exact hx
   have l3 : ∀ (x : Bytes) v, x.length = h.length → (Hdr.set_shnum o.cls o.enc x v).length = h.length := by
     intro x v hx; unfold Hdr.set_shnum
-    rw [setF_length _ _ _ _ _ _ _ _ (by simp only [Elf32_Ehdr.e_shnum_off]; omega) (by simp only [Elf64_Ehdr.e_shnum_off]; omega)]; exact hx
+    rw [setF_length _ _ _ _ _ _ _ _ (hb x hx _ _ _ _ (by decide) (by decide))]; exact hx
   have l4 : ∀ (x : Bytes) v, x.length = h.length → (Hdr.set_shoff o.cls o.enc x v).length = h.length := by
     intro x v hx; unfold Hdr.set_shoff
-    rw [setF_length _ _ _ _ _ _ _ _ (by simp only [Elf32_Ehdr.e_shoff_off]; omega) (by simp only [Elf64_Ehdr.e_shoff_off]; omega)]; exact hx
+    rw [setF_length _ _ _ _ _ _ _ _ (hb x hx _ _ _ _ (by decide) (by decide))]; exact hx
   exact l4 _ _ (l3 _ _ (l2 _ _ (l1 _)))
 
-theorem e_shoff_set_shoff (c : Cls) (enc : Enc) (h : Bytes) (v : BitVec 64) (hl : 64 ≤ h.length)
+theorem e_shoff_set_shoff (c : Cls) (enc : Enc) (h : Bytes) (v : BitVec 64) (hl : ehdrSize c ≤ h.length)
     (hf : fitsB c v = true) : Hdr.e_shoff c enc (Hdr.set_shoff c enc h v.toNat) = v := by
   unfold Hdr.e_shoff Hdr.set_shoff Hdr.setF fld
   cases c with
   | c32 =>
+    simp only [ehdrSize, sizeof_Elf32_Ehdr] at hl
     simp only [Elf32_Ehdr.e_shoff_off, Elf32_Ehdr.e_shoff_w]
     have := slice_wr_same_arr h (wrField enc 4 v.toNat) 32 (by rw [wrField_length_arr]; omega)
     rw [wrField_length_arr] at this
@@ -3237,6 +3248,7 @@ theorem e_shoff_set_shoff (c : Cls) (enc : Enc) (h : Bytes) (v : BitVec 64) (hl 
     simp only [BitVec.toNat_ofNat, Nat.reducePow, Nat.reduceMul]
     omega
   | c64 =>
+    simp only [ehdrSize, sizeof_Elf64_Ehdr] at hl
     simp only [Elf64_Ehdr.e_shoff_off, Elf64_Ehdr.e_shoff_w]
     have := slice_wr_same_arr h (wrField enc 8 v.toNat) 40 (by rw [wrField_length_arr]; omega)
     rw [wrField_length_arr] at this
@@ -3245,5 +3257,43 @@ theorem e_shoff_set_shoff (c : Cls) (enc : Enc) (h : Bytes) (v : BitVec 64) (hl 
     have := v.isLt
     simp only [BitVec.toNat_ofNat, Nat.reducePow, Nat.reduceMul]
     omega
+
+theorem saveSegments_sticky (c : Cls) (enc : Enc) (phoff : BitVec 64) (phentsize : BitVec 16) (l : List Seg)
+    (os : OStream) (h : (l.foldl (saveSegment c enc phoff phentsize) os).fail = false) : os.fail = false := by
+  cases hf : os.fail with
+  | false => rfl
+  | true =>
+    exfalso
+    have : ∀ (l : List Seg) (s : OStream), s.fail = true →
+        (l.foldl (saveSegment c enc phoff phentsize) s).fail = true := by
+      intro l
+      induction l with
+      | nil => intro s hs; exact hs
+      | cons x xs ihx =>
+        intro s hs
+        simp only [List.foldl_cons]
+        apply ihx
+        have : saveSegment c enc phoff phentsize s x = s := by
+          unfold saveSegment OStream.adjust OStream.seekEnd OStream.write OStream.seekp OStream.tellp
+          simp [hs]
+        rw [this]; exact hs
+    rw [this l os hf] at h; exact nomatch h
+
+/-- the number of sections does not change -/
+theorem layout_length (o : Obj) (h : Bytes) (res : LayoutRes) (hl : layoutOf o h = .ok (some res))
+    (hnw : layoutNW o h = true) (hn : o.secs.length < 65536)
+    (h0 : ∀ (i : Nat) (s : SecBuf), o.secs[i]? = some s → s.Occ → s.index ≠ 0) :
+    res.secs.length = o.secs.length := by
+  obtain ⟨-, hstep2, -, -⟩ := layout_packed o h res hl hnw hn h0
+  have hlen : res.lay2.secs.length = o.secs.length := hstep2.len
+  unfold layoutNW at hnw
+  rw [hl] at hnw
+  simp only [Bool.and_eq_true, decide_eq_true_eq] at hnw
+  obtain ⟨⟨-, hnw3⟩, -⟩ := hnw
+  obtain ⟨-, -, -, -, -, -, hloose, -⟩ := layoutOf_parts o h res hl
+  rw [layoutLoose_eq_spec] at hloose
+  simp only [List.reverse_nil, List.nil_append, Prod.mk.injEq] at hloose
+  obtain ⟨flen, -⟩ := looseSpec_facts o.cls res.segs res.lay2.secs 0 res.lay2.pos hnw3
+  rw [hloose.1, flen, hlen]
 
 end ElfioVerif
